@@ -1479,8 +1479,9 @@ impl<'a> Searcher<'a> {
             Field::Modified => match file_info {
                 Some(file_info) => {
                     if let Some(file_info_modified) = &file_info.modified {
-                        let dt = to_local_datetime(file_info_modified);
-                        return Variant::from_datetime(dt);
+                        if let Some(dt) = to_local_datetime(file_info_modified) {
+                            return Variant::from_datetime(dt);
+                        }
                     }
                 }
                 _ => {
